@@ -368,9 +368,11 @@ func (fr *Frame) builtin(b *ssa.Builtin, cc *ssa.CallCommon, args []Val, resT ty
 		case *types.Array:
 			return Val{T: resT, Term: fmt.Sprint(u.Len())}
 		case *types.Chan:
-			r := fr.havocVal(resT, "chancap")
-			c.smt.assume(app(">=", r.Term, "0"), "")
-			return r
+			// the capacity of a channel never changes: an uninterpreted function of the channel
+			c.smt.declareFun("chan_cap", []string{"Int"}, "Int")
+			t := c.smt.define("chancap", "Int", app("chan_cap", c.termOf(a)))
+			c.smt.assume(and(app(">=", t, "0"), app("<=", t, "72057594037927936")), "capacity of a channel")
+			return Val{T: resT, Term: t}
 		}
 	case "append":
 		if one, ok := singleVarArg(cc); ok {
